@@ -322,7 +322,7 @@ Definition split_locations (sp:sep) (s:option str) : res (option (list str)) :=
   end.
 
 (* os.path.abspath(util.coerce_resource_to_filename(location)) relative to the working directory = root of the tree.
-   None: absolute, or a package resource ("pkg:dir"), or leaving the tree through ".." — outside the model. *)
+   None: absolute outside the tree root, or a package resource ("pkg:dir"), or leaving the tree through ".." — outside the model. *)
 Definition norm_step (acc:option path) (comp:str) : option path :=
   match acc with
   | None => None
@@ -332,8 +332,12 @@ Definition norm_step (acc:option path) (comp:str) : option path :=
         else Some (st ++ [comp])
       else Some st
   end.
+(* the harness writes absolute locations as "/R/..." where "/R" stands for the (delimiter-free) absolute path of the
+   tree root = working directory; an absolute name is never taken for a package resource, so it may contain ":" *)
+Definition s_root : str := [47;82].          (* "/R" *)
 Definition norm_path (s:str) : option path :=
-  if prefixb [47] s || existsb (N.eqb 58) s then None
+  if prefixb (s_root ++ [47]) s then fold_left norm_step (split_on 47 (skipn 2 s)) (Some [])
+  else if prefixb [47] s || existsb (N.eqb 58) s then None
   else fold_left norm_step (split_on 47 s) (Some []).
 
 (* ScriptDirectory._version_locations, as normalised paths *)
